@@ -266,6 +266,7 @@ type g16Outer struct {
 	VerifyingKey stdgroth16.VerifyingKey[g1t, g2t, gtt]
 	InnerWitness stdgroth16.Witness[sfr377]
 	complete     bool
+	subgroup     bool
 }
 
 func (c *g16Outer) Define(api frontend.API) error {
@@ -276,6 +277,9 @@ func (c *g16Outer) Define(api frontend.API) error {
 	var opts []stdgroth16.VerifierOption
 	if c.complete {
 		opts = append(opts, stdgroth16.WithCompleteArithmetic())
+	}
+	if c.subgroup {
+		opts = append(opts, stdgroth16.WithSubgroupCheck())
 	}
 	return v.AssertProof(c.VerifyingKey, c.Proof, c.InnerWitness, opts...)
 }
@@ -393,8 +397,41 @@ func runC17(args []string) int {
 				return nat, test.IsSolved(tmpl, asg, outF)
 			}}
 		}
+		// with the subgroup-check option the in-circuit verifier must, like the native one, reject elements shifted by a point of
+		// small order (on the curve, outside G1; invisible to the pairings)
+		mkSub := func(name string, pr groth16.Proof) triple {
+			return triple{name, func() (error, error) {
+				nat := groth16.Verify(pr, vk, pub, stdgroth16.GetNativeVerifierOptions(outF, inF))
+				cvk, _ := stdgroth16.ValueOfVerifyingKey[g1t, g2t, gtt](vk)
+				cw, _ := stdgroth16.ValueOfWitness[sfr377](pub)
+				cp, err := stdgroth16.ValueOfProof[g1t, g2t](pr)
+				if err != nil {
+					return nat, err
+				}
+				tmpl := &g16Outer{InnerWitness: stdgroth16.PlaceholderWitness[sfr377](ccs), VerifyingKey: stdgroth16.PlaceholderVerifyingKey[g1t, g2t, gtt](ccs), Proof: stdgroth16.PlaceholderProof[g1t, g2t](ccs), subgroup: true}
+				asg := &g16Outer{InnerWitness: cw, VerifyingKey: cvk, Proof: cp}
+				return nat, test.IsSolved(tmpl, asg, outF)
+			}}
+		}
 		var ts []triple
 		ts = append(ts, mk("genuine", proof, vk, pub, false), mk("genuine (complete arithmetic)", proof, vk, pub, true))
+		ts = append(ts, mkSub("genuine (subgroup checks)", proof))
+		{
+			edits := []struct {
+				name string
+				pt   func(p *g16_377.Proof) interface{}
+			}{{"Ar", func(p *g16_377.Proof) interface{} { return &p.Ar }}, {"Krs", func(p *g16_377.Proof) interface{} { return &p.Krs }},
+				{"commitment PoK", func(p *g16_377.Proof) interface{} { return &p.CommitmentPok }}}
+			for _, e := range edits {
+				pe := clone()
+				if e.name == "commitment PoK" && len(pe.Commitments) == 0 {
+					continue
+				}
+				if editPoint(e.pt(pe), "torsion") {
+					ts = append(ts, mkSub(e.name+" + point of small order (subgroup checks)", pe))
+				}
+			}
+		}
 		ts = append(ts, mk("replayed against another public witness", proof, vk, pubB, false))
 		ts = append(ts, mk("key of another setup", proof, vk2, pub, false))
 		{
@@ -605,6 +642,7 @@ func runC17(args []string) int {
 			rep.Fail("harness:genuine-rejected", shortErr(j.nat), desc)
 		}
 	}
+	c17KZGBatch(rep, rng)
 	rep.Write(o.Out)
 	return 0
 }
